@@ -12,6 +12,6 @@ cd "$WT" || exit 2
 if ! git apply "$P" 2>/dev/null; then
   if ! patch -p1 -s --no-backup-if-mismatch < "$P" >/dev/null 2>&1; then echo "PATCH-DOES-NOT-APPLY"; exit 3; fi
 fi
-cd /verif && VERIF_REPO="$WT" ./check "$ID" --tier quick --no-shrink "$@" | grep -E "^check|signature|VIOLATION|HARNESS|KNOWN" | cut -c1-300
+cd /verif && VERIF_REPO="$WT" ./check "$ID" --tier quick --no-shrink "$@" | grep -a -E "^check|signature|VIOLATION|HARNESS|KNOWN" | cut -c1-300
 rc=${PIPESTATUS[0]}
 echo "exit=$rc"
